@@ -53,7 +53,18 @@ class C19(Property):
                    'cfg': {'nonlinear': rng.choice(['nlbgs', 'newton']) if cyc else None,
                            'linear': 'direct' if cyc else None},
                    'recorder': rng.choice(['model', 'problem']),
-                   'fresh': rng.random() < 0.5}
+                   'fresh': rng.random() < 0.5,
+                   # the recorder leaves the independent variables out (their values are in the case
+                   # only through the recorded inputs they feed)
+                   'exclude_ivc': rng.random() < 0.35}
+        # family: system recorder without the independent variables, loaded into the same problem
+        # (after run_model) and into a fresh one (after setup only)
+        for k in range(8 if tier == 'quick' else 150):
+            yield {'gen_seed': rng.randrange(10 ** 9), 'bseed': rng.randrange(10 ** 9),
+                   'opts': {'safe_indices': True, 'implicit': rng.random() < 0.3,
+                            'scaling': rng.random() < 0.3, 'cycles': False},
+                   'cfg': {'nonlinear': None, 'linear': None}, 'recorder': 'model',
+                   'fresh': k % 2 == 0, 'exclude_ivc': True}
         # family: a subsystem overrides System.load_case (the documented hook) and restores its own
         # variables itself; its pathname is, where the model allows, a plain string prefix of a
         # sibling's pathname
@@ -125,6 +136,14 @@ class C19(Property):
                     p.model.recording_options['record_inputs'] = True
                     p.model.recording_options['record_outputs'] = True
                     p.model.recording_options['record_residuals'] = True
+                    if case.get('exclude_ivc'):
+                        exc = []
+                        for ci, c in enumerate(md['comps']):
+                            if c['kind'] == 'ivc':
+                                for od in c['outs']:
+                                    exc.append(gm.out_root_name(md, ci, od['name']))
+                        p.model.recording_options['excludes'] = exc
+                        res['excluded'] = exc
                 else:
                     p.add_recorder(rec)
                     p.recording_options['record_inputs'] = True
@@ -159,6 +178,10 @@ class C19(Property):
                     if case.get('override'):
                         self._install_override(p2, md, case)
                     p2.setup()
+                    # the fresh problem starts from state B as well (its defaults are state A), still
+                    # without final_setup
+                    for n, v in self._state_b(case, md).items():
+                        p2.set_val(n, np.array(v).reshape(np.shape(p.get_val(n))))
                     tgt = p2
                 else:
                     tgt = p
@@ -182,7 +205,16 @@ class C19(Property):
             return None
         if 'error' in impl:
             return {'what': 'record/load raised %s' % impl['error'], 'msg': impl.get('msg')}
+        skip = set()
+        if impl.get('excluded'):
+            # independent variables left out of the case are restored only as far as recorded inputs
+            # read them (and through the inverse unit conversion): not compared entry by entry
+            md0, = (self._md(case),)
+            skip = {gm.comp_path(c) + '.' + od['name'] for c in md0['comps'] if c['kind'] == 'ivc'
+                    for od in c['outs']}
         for n, v in impl['a_out'].items():
+            if n in skip:
+                continue
             if impl['loaded_out'][n] != v:
                 return {'what': 'output after load_case differs from the recorded value', 'var': n,
                         'loaded': impl['loaded_out'][n], 'recorded': v}
@@ -197,6 +229,8 @@ class C19(Property):
                         'loaded': impl['loaded_in'][n], 'recorded': v}
         tol = 1e-7 if case['cfg']['nonlinear'] else RTOL
         for n, v in impl['a_out'].items():
+            if n in skip:
+                continue
             a, b = np.array(impl['rerun_out'][n]), np.array(v)
             if not np.all(np.abs(a - b) <= tol * np.maximum(1.0, np.abs(b))):
                 return {'what': 'run_model after load_case does not reproduce the recorded outputs',
@@ -227,7 +261,9 @@ class C19(Property):
     # -- model -----------------------------------------------------------------------------------
     def model_requests(self, case, impl):
         md = self._md(case)
-        if 'error' in impl or md.get('cyclic'):
+        if 'error' in impl or md.get('cyclic') or impl.get('excluded'):
+            # (with the independent variables left out of the case the restored state is not the
+            # stored one entry by entry; the direct oracle covers those cases)
             return []
         # the recorded values of the independent variables, loaded into a store holding state B,
         # then one sweep: must give the recorded outputs
